@@ -212,7 +212,8 @@ def check_into_f64(c):
         q = Fraction(-n if s else n, d)
         big_ = n.bit_length() > 64 or d.bit_length() > 64
         c.note_case(key, n != 0, 'into_f64-multi-limb' if big_ else 'into_f64-small')
-        # spec: the f64 is within 2^-50 relative of the rational (or the right overflow/underflow behaviour)
+        # spec: the f64 is within 2^-50 relative of the rational (absolute in the subnormal range),
+        # an infinity of the right sign only for |q| >= 2^1023
         ok_spec = False
         if pi is not None:
             v = exact_of_bits(pi[0])
@@ -221,15 +222,17 @@ def check_into_f64(c):
             elif v is None:
                 ok_spec = abs(q) >= Fraction(2) ** 1023 and pi[0] != 0x7FF8000000000000 and ((pi[0] >> 63) == s)
             elif abs(q) < Fraction(1, 1 << 1021):
-                ok_spec = abs(v - q) <= Fraction(1, 1 << 1070)       # subnormal range: absolute
+                ok_spec = abs(v - q) <= Fraction(1, 1 << 1070)
             else:
                 ok_spec = abs(v - q) <= abs(q) / (1 << 50)
+        in_class = (isnan[i] == '1')
         if not ok_spec:
-            if isnan[i] == '1' and c.known_finding('into_f64_overflow'):
-                pass
-            else:
-                c.violation('into_f64-inaccurate', {'kind': 'impl-vs-spec', 'layer': 'L1', 'op': 'into-f64', 'neg': s, 'num': str(n), 'den': str(d), 'impl': impl[i]})
+            if in_class and c.known_finding('into_f64_overflow'):
                 continue
+            c.violation('into_f64-inaccurate', {'kind': 'impl-vs-spec', 'layer': 'L1', 'op': 'into-f64', 'neg': s, 'num': str(n), 'den': str(d), 'impl': impl[i]})
+            continue
+        if in_class:
+            continue        # meets the spec inside a listed class: the bug-compatible mirror is not consulted
         if impl[i] != model[i]:
             c.violation('into_f64-differs-from-model', {'kind': 'impl-vs-model', 'layer': 'L1', 'op': 'into-f64', 'neg': s, 'num': str(n), 'den': str(d), 'impl': impl[i], 'model': model[i]}, no_input=True)
     c.sample({'op': 'into-f64', 'case': [str(x) for x in cases[1]], 'impl': impl[1], 'model': model[1]})
@@ -268,17 +271,22 @@ def check_from_f64(c):
         c.note_case('from:%d' % b, True, 'from_f64')
         p = parse_ok(impl[i])
         v = exact_of_bits(b)
+        in_class = (sat[i] == '1')
+        # spec: a finite value is converted to within 2^-63 (the statement needs 1e-9); a value that
+        # cannot be converted (infinite, NaN) must be an error, not a number
         ok_spec = False
-        if p is not None and p[2] != 0:
+        if v is None:
+            ok_spec = (p is None and (try_parse(impl[i]) or [None])[0] == b'err')
+        elif p is not None and p[2] != 0:
             got = Fraction(-p[1] if p[0] else p[1], p[2])
-            if v is not None and abs(v) < TWO64:
-                ok_spec = abs(got - v) <= Fraction(1, 1 << 63)
+            ok_spec = abs(got - v) <= Fraction(1, 1 << 63)
         if not ok_spec:
-            if sat[i] == '1' and c.known_finding('bridge_saturation'):
-                pass
-            else:
-                c.violation('from_f64-wrong', {'kind': 'impl-vs-spec', 'layer': 'L1', 'op': 'from-f64', 'bits': b, 'impl': impl[i]})
+            if in_class and c.known_finding('bridge_saturation'):
                 continue
+            c.violation('from_f64-wrong', {'kind': 'impl-vs-spec', 'layer': 'L1', 'op': 'from-f64', 'bits': b, 'impl': impl[i]})
+            continue
+        if in_class:
+            continue
         if impl[i] != model[i]:
             c.violation('from_f64-differs-from-model', {'kind': 'impl-vs-model', 'layer': 'L1', 'op': 'from-f64', 'bits': b, 'impl': impl[i], 'model': model[i]}, no_input=True)
     c.sample({'op': 'from-f64', 'bits': bl[5], 'impl': impl[5], 'model': model[5]})
@@ -384,15 +392,33 @@ def check_real_fns(c):
     for f in FNAMES:
         for a in gen_real_args(c, f):
             reqs.append((f,) + a)
-    mres, _ = model_with_oracle(c, reqs)
+    mres, tables = model_with_oracle(c, reqs)
     il = [sx([Sym('real-fn'), Sym(f), pi, s, n, d]) for (f, pi, s, n, d) in reqs]
     impl = c.impl('elem', il)
-    for req, io, m in zip(reqs, impl, mres):
+    # membership in the listed classes (the model's classifiers)
+    cl = []
+    for (f, pi, s, n, d), t in zip(reqs, tables):
+        cl.append(sx([Sym('known-bigpi'), s, n, d]) if pi else sx([Sym('known-overflow'), s, n, d]))
+    clo = c.model('elem', cl, cross=False)
+    outs = sorted(set(o for t in tables for (_, o) in t))
+    so = dict(zip(outs, c.model('elem', [sx([Sym('known-saturates'), o]) for o in outs], cross=False))) if outs else {}
+    for req, io, m, k1, t in zip(reqs, impl, mres, clo, tables):
         f = req[0]
         key = 'real-fn:%s:%d:%d:%d/%d' % req
         i = parse_real_result(io)
         c.note_case(key, True, 'L1-real-' + f + ('-pi' if req[1] else ''))
         if i != m:
+            cls = None
+            if k1 == '1':
+                cls = 'big_pi_multiple' if req[1] else 'into_f64_overflow'
+            elif any(so.get(o) == '1' for (_, o) in t):
+                cls = 'bridge_saturation'
+            if cls is not None:
+                # inside a listed class the mirror is not consulted (somebody may have repaired the defect);
+                # the value itself is judged at L2 against the certified points
+                c.extra.setdefault('l1_real_fn_in_class_differs_from_mirror', {}).setdefault(cls, 0)
+                c.extra['l1_real_fn_in_class_differs_from_mirror'][cls] += 1
+                continue
             c.violation('real-fn-differs-from-model', {'kind': 'impl-vs-model', 'layer': 'L1', 'op': 'real-fn', 'fn': f, 'pi': req[1], 'neg': req[2], 'num': str(req[3]), 'den': str(req[4]),
                                                        'impl': io, 'model': repr(m)}, no_input=True)
     c.sample({'op': 'real-fn', 'req': [str(x) for x in reqs[3]], 'impl': impl[3], 'model': repr(mres[3])})
@@ -442,7 +468,8 @@ def check_pows(c):
     for (a, b), io, mo in zip(rs, impl, model):
         c.note_case('real-pow:%r^%r' % (a, b), True, 'L1-real-pow')
         i, m = parse_real_result(io), parse_real_result(mo)
-        if i != m:
+        in_class = (b == (0, 0, 0, 1) and a[0] == 1 and a[2] != 0)        # (k pi)^0: class pow_zero_of_pi_multiple_marked
+        if i != m and not in_class:
             c.violation('real-pow-differs-from-model', {'kind': 'impl-vs-model', 'layer': 'L1', 'op': 'real-pow', 'a': [str(x) for x in a], 'b': [str(x) for x in b], 'impl': io, 'model': mo}, no_input=True)
         # spec: x^0 (x != 0) and x^1 are exact and unmarked
         if b == (0, 0, 0, 1) and a[2] != 0 and i[0] == 'ok' and not (i[1] == 1 and i[3] == 1):
@@ -456,12 +483,13 @@ def check_pows(c):
 # L2 points
 
 class Pt:
-    __slots__ = ('expr', 'coq_re', 'coq_im', 'ref', 'kind', 'xabs', 'fn', 'either_im_sign', 'either_re_sign', 'expect', 'model',
+    __slots__ = ('certify', 'expr', 'coq_re', 'coq_im', 'ref', 'kind', 'xabs', 'fn', 'either_im_sign', 'either_re_sign', 'expect', 'model',
                  'probe', 'want_exact', 'pre', 'out15', 'outdbg', 'val', 'cls', 'tan_arg', 'comp')
     def __init__(self, expr, coq_re, ref, kind, fn=None, xabs=0, coq_im=None, expect='value', model=None, probe=None, want_exact=None, pre=None):
         self.expr = expr; self.coq_re = coq_re; self.coq_im = coq_im; self.ref = ref; self.kind = kind
         self.xabs = Fraction(xabs); self.fn = fn; self.either_im_sign = False; self.either_re_sign = False
         self.expect = expect; self.model = model; self.probe = probe; self.want_exact = want_exact; self.pre = pre
+        self.certify = True
         self.out15 = None; self.outdbg = None; self.val = None; self.cls = None; self.tan_arg = None; self.comp = None
 
 COQ_FN = {'sin': 'sin', 'cos': 'cos', 'tan': 'tan', 'asin': 'asin', 'acos': 'acos', 'atan': 'atan', 'sinh': 'sinh', 'cosh': 'cosh',
@@ -557,6 +585,8 @@ def mk_real_pt(f, s, p, q, kind=None, unit=None):
     cexpr = '%s %s' % (COQ_FN[f], X)
     ref = ref_trig(f, xr) if f in ('sin', 'cos', 'tan') else pyf(f, tofloat(xr))
     pt = Pt(expr, cexpr, ref, kind or ('fn-' + f), fn=f, xabs=abs(xr), model=model)
+    if unit is None and x != 0 and not (f == 'ln' and x == 1):
+        pt.want_exact = False          # a rational argument off the documented exact points: must be marked approx.
     if f == 'tan':
         pt.tan_arg = xr
     return pt
@@ -580,11 +610,14 @@ def gen_points(c):
             # the property's exact points: value rational <=> exact
             kk = k if f == 'sin' else k + 6
             pt.want_exact = (kk % 2 == 0) and ((kk // 2) % 12 not in (2, 4, 8, 10))
+            pt.certify = (not quick) or abs(k) <= 24 or r.random() < 0.05
             pts.append(pt)
     for k in list(range(-24, 25)) + [r.randint(-2000, 2000) for _ in range(10 if quick else 100)]:
         t = Fraction(k, 12)
         pts.append(mk_real_pt('tan', 1 if k < 0 else 0, abs(k), 12, kind='special-tan', unit=('* pi', Fraction(1))))
         pts[-1].expr = 'tan(%d*pi/12)' % k
+        if k % 12 == 6:                      # odd multiple of pi/2: outside the domain
+            pts[-1].expect = 'error'; pts[-1].kind = 'domain-edge'; pts[-1].tan_arg = None; pts[-1].model = None
     # --- angle units
     for (u, per) in UNITS:
         for _ in range(4 if quick else 40):
@@ -694,6 +727,10 @@ def gen_points(c):
     pts[-1].want_exact = True
     probe('pi^0', '1', 1.0, 'pow_zero_of_pi_multiple_marked', 'exactpt')
     pts[-1].want_exact = True
+    PN, PD = 7766573304754681815099112040135962057748114100254599612090187253, 2472177064674529749758634765928338485757864963795000752246620160
+    probe('cos(-%d/%d)' % (PN, 2 * PD), 'cos (- %d / %d)' % (PN, 2 * PD), 1.2e-24, 'cos_of_minus_half_pi_model_exact', 'cos', 2,
+          model=('cos', 0, 1, PN, 2 * PD))
+    pts[-1].want_exact = False
     probe('2^pi', 'Rpower 2 PI', 2 ** math.pi, 'pow_irrational_exponent_unsupported', 'pow')
     probe('e^pi', 'exp PI', math.e ** math.pi, 'pow_irrational_exponent_unsupported', 'pow')
     return pts
@@ -744,23 +781,23 @@ def run_coq_points(c, lemmas):
         failed = []
         live = list(ch)
         vf = os.path.join(d, 'points_%d.v' % ci)
-        for _attempt in range(12):
+        for _attempt in range(15):
             with open(vf, 'w') as fh:
                 fh.write(head)
-                for (nm, st) in live:
-                    fh.write('Lemma %s : %s. Proof. pt. Qed.\n' % (nm, st))
+                for (nm, st, tac) in live:
+                    fh.write('Lemma %s : %s. Proof. %s. Qed.\n' % (nm, st, tac))
             rc, out = sh(['coqc', '-Q', COQ, 'FendV', '-w', '-all', vf], cwd=d, timeout=1800)
             if rc == 0:
                 return failed
             m = re.search(r'line (\d+), characters', out)
             if not m:
-                return failed + [nm for nm, _ in live] + ['!' + out[-300:]]
+                return failed + [l_[0] for l_ in live] + ['!' + out[-300:]]
             k = int(m.group(1)) - nhead - 1
             if not (0 <= k < len(live)):
-                return failed + [nm for nm, _ in live]
+                return failed + [l_[0] for l_ in live]
             failed.append(live[k][0])
             del live[k]
-        return failed + [nm for nm, _ in live]
+        return failed + [l_[0] for l_ in live]
 
     with ThreadPoolExecutor(max_workers=NPROC) as ex:
         res = list(ex.map(run_chunk, list(enumerate(chunks))))
@@ -846,6 +883,8 @@ def check_l2(c, pi_model):
                 c.violation('domain-edge-not-an-error', {'kind': 'impl-vs-spec', 'layer': 'L2', 'expr': p.expr, 'impl': o15[i]})
             continue
         if r15[0] == b'err':
+            if p.fn in ('sinh', 'cosh', 'exp') and p.ref in (float('inf'), float('-inf')):
+                continue          # the true value exceeds every f64: "an error when the result cannot be represented"
             if kn and known(kn):
                 continue
             c.violation('in-domain-argument-rejected', {'kind': 'impl-vs-spec', 'layer': 'L2', 'expr': p.expr, 'impl': o15[i]})
@@ -856,22 +895,28 @@ def check_l2(c, pi_model):
             continue
         approx, re_, im_ = v
         p.val = v
+        # the exactness flag proper is the one `@debug` prints (a decimal cut off at 15 dp is
+        # also prefixed approx.); fall back to the printed one for complex values
+        dbg = try_parse(odb[i])
+        dv = parse_debug(dbg[1].decode('utf-8', 'replace')) if isinstance(dbg, list) and len(dbg) > 1 and dbg[0] == b'ok' and isinstance(dbg[1], bytes) else None
+        if dv is not None:
+            approx = dv[0]
         # ---- flags: impl vs spec
         if p.want_exact is True and approx:
             if not (kn and known(kn)):
                 c.violation('exact-point-marked-approximate', {'kind': 'impl-vs-spec', 'layer': 'L2', 'expr': p.expr, 'impl': o15[i]})
             continue
         if p.want_exact is False and not approx:
+            if kn and known(kn):
+                continue
             c.violation('irrational-value-not-marked-approximate', {'kind': 'impl-vs-spec', 'layer': 'L2', 'expr': p.expr, 'impl': o15[i]})
             continue
         if p.fn in ('asin', 'acos', 'atan', 'sinh', 'cosh', 'tanh', 'asinh', 'acosh', 'atanh', 'log2', 'log10', 'complex', 'const') and not approx:
             c.violation('bridge-result-not-marked-approximate', {'kind': 'impl-vs-spec', 'layer': 'L2', 'expr': p.expr, 'impl': o15[i]})
             continue
         # ---- impl vs model (exact rational through @debug, flag)
-        if i in mof:
+        if i in mof and not kn:          # inside a listed class the bug-compatible mirror is not consulted
             m = mof[i]
-            dbg = try_parse(odb[i])
-            dv = parse_debug(dbg[1].decode('utf-8', 'replace')) if isinstance(dbg, list) and dbg and dbg[0] == b'ok' else None
             if m[0] == 'ok' and dv is not None:
                 if (dv[0] != (m[1] == 0)) or dv[1] != m[3]:
                     c.violation('evaluate-differs-from-model', {'kind': 'impl-vs-model', 'layer': 'L2', 'expr': p.expr, 'impl_debug': odb[i], 'model': repr(m)}, no_input=True)
@@ -880,6 +925,14 @@ def check_l2(c, pi_model):
             elif m[0] == 'err':
                 pass       # complex extension or error path: compared against the certified value below
         # ---- value: impl vs the true function, certified by Coq
+        if not p.certify:
+            # quick tier: this multiple of pi/12 is compared with the model (above) but not sent to Coq;
+            # float pre-screen only
+            tol = 1e-9 * max(1.0, abs(p.ref))
+            if abs(float(re_) - p.ref) > tol and not (kn and known(kn)):
+                c.violation('inaccurate-special-point', {'kind': 'impl-vs-spec', 'layer': 'L2', 'expr': p.expr, 'impl': o15[i], 'float_reference': repr(p.ref)})
+            c.dist['special-not-sent-to-coq'] = c.dist.get('special-not-sent-to-coq', 0) + 1
+            continue
         if unconstrained(p):
             lim = Fraction(1) + Fraction(1, 10 ** 9)
             if p.fn in ('sin', 'cos') and abs(re_) > lim:
@@ -907,10 +960,12 @@ def check_l2(c, pi_model):
             okpre = okpre and pre_ok
             nm = 'pt_%d_%d' % (i, ci)
             cl = claims_for(F, r_, ref if ref not in (float('inf'), float('-inf')) else 2.0, p, negate=not pre_ok)
-            if pre_ok:
-                lemmas.append((nm, ' /\\ '.join('(%s)' % x for x in cl)))
-            else:
-                lemmas.append((nm, ' /\\ '.join('(%s)' % x for x in cl)))
+            tac = 'pt'
+            if p.fn == 'tanh' and p.xabs >= 20 and pre_ok:
+                tac = 'pt_tanh_big'
+            if len(cl) > 1:
+                tac = 'split; ' + tac
+            lemmas.append((nm, ' /\\ '.join('(%s)' % x for x in cl), tac))
             plan[nm] = (i, 'ok' if pre_ok else 'bad')
         verdict[i] = okpre
 
@@ -945,7 +1000,7 @@ def check_l2(c, pi_model):
                      'points_dir': pdir})
     # a listed class whose probe now behaves: note only (never an alarm)
     for i, p in enumerate(pts):
-        if p.probe and i not in bad_points and p.val is not None and not (p.want_exact and p.val[0]):
+        if p.probe and p.probe not in c.known_hits and i not in bad_points and p.val is not None and not (p.want_exact and p.val[0]):
             c.notes.append('probe of class %s now satisfies the statement: %s -> %s' % (p.probe, p.expr, p.out15))
     k = [i for i, p in enumerate(pts) if p.kind.startswith('fn-')][:3]
     for i in k:
